@@ -85,7 +85,7 @@ def chainHyp : List Step → MeshFields → Bool
   | s :: ss, f =>
     (match s with
      | .layer pp cp => permHypB f pp cp
-     | .extend _ => f.wf) &&
+     | .extend _ => f.wf2) &&
     (match applyStep s f with
      | some f1 => chainHyp ss f1
      | none => true)
@@ -107,7 +107,7 @@ def opChain : P String := do
 
 def opStrip : P String := do
   let f ← pMeshFields
-  let hyp := f.wf && decide f.mesh.cellTypes.Nodup
+  let hyp := f.wf2
   let map := match unconnectedFilterMap stableArgsortBool f.mesh with
     | some l => showNats l
     | none => "E"
@@ -117,7 +117,7 @@ def opStrip : P String := do
 def opExtend : P String := do
   let sd ← pNat
   let f ← pMeshFields
-  pure s!"hyp={showBool f.wf} model={showOptFields (extendSpaceDim sd f)} spec={showOptFields (Spec.extendSpec sd f)}"
+  pure s!"hyp={showBool f.wf2} model={showOptFields (extendSpaceDim sd f)} spec={showOptFields (Spec.extendSpec sd f)}"
 
 def handleC08 (op : String) : Option (P String) :=
   match op with
